@@ -360,3 +360,151 @@ Fixpoint session_from (files : list elf) (hs : list hstate) (evs : list sev) : l
   end.
 
 Definition session_run (files : list elf) (evs : list sev) : list sobs := session_from files [] evs.
+
+(* ---- the conversation with addr2line (addr2liner.go readFrame :124, rawAddrInfo :171) ----
+   One addr2Liner talks to one tool process over one pipe.  [pipe] = the lines the tool has printed
+   and the code has not read yet.  The tool is an oracle: for a link address, the (function line,
+   file:line line) pairs it prints; it answers every request line with an echo of the address
+   ("0x...") followed by those pairs, "??" / "??:0" when it knows nothing. *)
+Record frame := { fr_func : string; fr_file : string; fr_line : Z }.
+Definition frame0 : frame := {| fr_func := ""; fr_file := ""; fr_line := 0 |}.
+(* frame == (plugin.Frame{}) on the fields readFrame sets *)
+Definition frame_empty (f : frame) : bool :=
+  String.eqb (fr_func f) "" && String.eqb (fr_file f) "" && (fr_line f =? 0).
+
+Definition a2l_tool := Z -> list (string * string).
+Definition a2l_tool_pairs (tool : a2l_tool) (x : Z) : list (string * string) :=
+  match tool x with [] => [("??", "??:0")] | l => l end.
+Definition a2l_answer (tool : a2l_tool) (x : Z) : list string :=
+  "0x" :: flat_map (fun p => [fst p; snd p]) (a2l_tool_pairs tool x).
+
+(* strings.LastIndex(s, ":") *)
+Fixpoint last_index_char (c : ascii) (s : string) (i : nat) (acc : option nat) : option nat :=
+  match s with
+  | EmptyString => acc
+  | String a r => last_index_char c r (S i) (if Ascii.eqb a c then Some i else acc)
+  end.
+(* strings.Index(s, sub) *)
+Fixpoint index_of_str (sub s : string) (i : nat) : option nat :=
+  if has_prefix sub s then Some i
+  else match s with
+       | EmptyString => None
+       | String _ r => index_of_str sub r (S i)
+       end.
+(* strconv.Atoi on optional sign + decimal digits (no overflow handling: lines are small) *)
+Fixpoint all_digits (s : string) : bool :=
+  match s with
+  | EmptyString => true
+  | String a r => (N.leb 48 (N_of_ascii a) && N.leb (N_of_ascii a) 57)%bool && all_digits r
+  end.
+Fixpoint digits_value (s : string) (acc : Z) : Z :=
+  match s with
+  | EmptyString => acc
+  | String a r => digits_value r (acc * 10 + (Z.of_N (N_of_ascii a) - 48))
+  end.
+Definition atoi (s : string) : option Z :=
+  let '(neg, d) := match s with
+                   | String "-" r => (true, r)
+                   | String "+" r => (false, r)
+                   | _ => (false, s)
+                   end in
+  match d with
+  | EmptyString => None
+  | _ => if all_digits d then Some (if neg then - digits_value d 0 else digits_value d 0) else None
+  end.
+
+(* the file:line line -> (File, Line), addr2liner.go:147-165 *)
+Definition a2l_parse_fileline (fl : string) : string * Z :=
+  if String.eqb fl "??:0" then (""%string, 0)
+  else match last_index_char ":" fl 0 None with
+       | None => (fl, 0)
+       | Some i =>
+           let fl1 := match index_of_str " (discriminator" fl 0 with
+                      | Some (S d) => take (S d) fl
+                      | _ => fl
+                      end in
+           match atoi (drop (S i) fl1) with
+           | Some n => (take i fl1, n)
+           | None => (fl1, 0)
+           end
+       end.
+Definition a2l_parse_pair (p : string * string) : frame :=
+  let '(file, line) := a2l_parse_fileline (snd p) in
+  {| fr_func := if String.eqb (fst p) "??" then "" else fst p; fr_file := file; fr_line := line |}.
+
+(* readFrame: (frame, end, rest of the pipe) *)
+Definition a2l_read_frame (pipe : list string) : frame * bool * list string :=
+  match pipe with
+  | [] => (frame0, true, [])
+  | fn :: p1 =>
+      if has_prefix "0x" fn then (frame0, true, tl (tl p1))   (* the sentinel's echo: skip its two lines *)
+      else match p1 with
+           | [] => (frame0, true, [])
+           | fl :: p2 => (a2l_parse_pair (fn, fl), false, p2)
+           end
+  end.
+
+(* the loop of rawAddrInfo: read frames until end, keep the non-empty ones *)
+Fixpoint a2l_read_frames (fuel : nat) (pipe : list string) (acc : list frame) : list frame * list string :=
+  match fuel with
+  | O => (rev acc, pipe)
+  | S f =>
+      let '(fr, en, p') := a2l_read_frame pipe in
+      if en then (rev acc, p')
+      else a2l_read_frames f p' (if frame_empty fr then acc else fr :: acc)
+  end.
+
+Definition E_TOOL : Z := 20.  (* addr2liner.go:187 unexpected addr2line output / read error *)
+
+(* rawAddrInfo: write addr-base, write the sentinel, read the echo, read the frames *)
+Definition a2l_raw_addr_info (tool : a2l_tool) (base : Z) (pipe : list string) (addr : Z)
+  : res (list frame) * list string :=
+  let p := (pipe ++ a2l_answer tool (tool_addr base addr) ++ a2l_answer tool max_u64)%list in
+  match p with
+  | [] => (Err E_TOOL, [])
+  | resp :: p1 =>
+      if negb (has_prefix "0x" resp) then (Err E_TOOL, p1)
+      else let '(st, p2) := a2l_read_frames (S (List.length p1)) p1 [] in (Ok st, p2)
+  end.
+
+(* addrInfo = rawAddrInfo + the nm fix-up of the last frame's name *)
+Fixpoint set_funcs (st : list frame) (names : list string) : list frame :=
+  match st, names with
+  | f :: r, n :: rn => {| fr_func := n; fr_file := fr_file f; fr_line := fr_line f |} :: set_funcs r rn
+  | _, _ => []
+  end.
+Definition a2l_full_addr_info (tool : a2l_tool) (base : Z) (nm : option (list sym)) (pipe : list string) (addr : Z)
+  : res (list frame) * list string :=
+  match a2l_raw_addr_info tool base pipe addr with
+  | (Ok st, p) => (Ok (set_funcs st (a2l_addr_info base nm addr (map fr_func st))), p)
+  | (Err e, p) => (Err e, p)
+  end.
+
+Fixpoint a2l_conversation (tool : a2l_tool) (base : Z) (nm : option (list sym)) (pipe : list string) (addrs : list Z)
+  : list (res (list frame)) * list string :=
+  match addrs with
+  | [] => ([], pipe)
+  | a :: r =>
+      let '(x, p) := a2l_full_addr_info tool base nm pipe a in
+      let '(xs, p') := a2l_conversation tool base nm p r in (x :: xs, p')
+  end.
+
+(* ---- llvm-symbolizer (addr2liner_llvm.go:177 addrInfo, code mode): one JSON line per request;
+   the JSON text is outside the model, a line is the list of symbols it carries ---- *)
+Definition llvm_tool := Z -> list frame.
+Definition llvm_answer (tool : llvm_tool) (x : Z) : list frame :=
+  match tool x with [] => [frame0] | l => l end.
+Definition llvm_addr_info (tool : llvm_tool) (base : Z) (pipe : list (list frame)) (addr : Z)
+  : res (list frame) * list (list frame) :=
+  match (pipe ++ [llvm_answer tool (tool_addr base addr)])%list with
+  | [] => (Err E_TOOL, [])
+  | l :: p => (Ok l, p)
+  end.
+Fixpoint llvm_conversation (tool : llvm_tool) (base : Z) (pipe : list (list frame)) (addrs : list Z)
+  : list (res (list frame)) * list (list frame) :=
+  match addrs with
+  | [] => ([], pipe)
+  | a :: r =>
+      let '(x, p) := llvm_addr_info tool base pipe a in
+      let '(xs, p') := llvm_conversation tool base p r in (x :: xs, p')
+  end.
